@@ -2,3 +2,4 @@
 pub mod zint;
 pub mod merkle;
 pub mod sponge;
+pub mod cfgpred;
